@@ -235,6 +235,13 @@ func reusePairs(version string) []pair {
 		// the same kick under a second room whose creator is S (no power levels): S holds the room
 		c2 := create(S)
 		ps = append(ps, mk("kick-by-other-creator", kick, c2, mem(S, "join"), mem(T, "join")))
+		// the first power-levels event of each room, sent by its creator while no power-levels event exists yet: the
+		// defaults it is judged against name the creator of THAT room
+		firstPL := func(by string) authgen.Ev {
+			return authgen.Ev{Type: "m.room.power_levels", StateKey: evgen.S(""), Sender: by, Content: `{"users":{"` + by + `":100},"notifications":{"room":50}}`, Prev: []string{"$p" + strings.Repeat("x", 42)}}
+		}
+		ps = append(ps, mk("first-power-levels-by-other-creator", firstPL(S), c2, mem(S, "join")))
+		ps = append(ps, mk("first-power-levels-by-creator", firstPL(C), create(C), mem(C, "join")))
 	}
 	return ps
 }
@@ -320,7 +327,7 @@ func runReuse(r *harness.Run, c reuseCase, pairs map[string]*built) error {
 func main() { harness.Main("C09", "model_checking", run) }
 
 func run(r *harness.Run) {
-	r.Rule("(1)+(3) every decisive-class cell of the auth rule space (member-self/-other, third-party invite, other events, power levels; a stride-sampled enumeration in the quick tier is NOT used: all cells of 4 representative room versions, all 16 in the thorough tier) x every insertion order of its auth events (all k! for k<=4, else rotations+swaps), every un-needed event removed, only-needed state, unrelated state added singly and together, repetition, and the auth events chosen by AddAuthEvents from the full state; (2) explicit-state search: all sequences of length <= D over 18-19 (event, auth state) pairs fed to ONE allower context with update() between events as state resolution does - with one reused provider object and with fresh provider objects - the verdict of every step vs a fresh Allowed on the same pair. Non-trivial = distinct reuse sequence / distinct cell with >= 3 auth events.")
+	r.Rule("(1)+(3) every decisive-class cell of the auth rule space (member-self/-other, third-party invite, other events, power levels; a stride-sampled enumeration in the quick tier is NOT used: all cells of 4 representative room versions, all 16 in the thorough tier) x every insertion order of its auth events (all k! for k<=4, else rotations+swaps), every un-needed event removed, only-needed state, unrelated state added singly and together, repetition, and the auth events chosen by AddAuthEvents from the full state; (2) explicit-state search: all sequences of length <= D over 18-21 (event, auth state) pairs fed to ONE allower context with update() between events as state resolution does - with one reused provider object and with fresh provider objects - the verdict of every step vs a fresh Allowed on the same pair. Non-trivial = distinct reuse sequence / distinct cell with >= 3 auth events.")
 	r.Assume("in-package access to newAllowerContext/update/allowed through a build-tagged bridge file added by overlay")
 	pairsByVer := map[string]map[string]*built{}
 	namesByVer := map[string][]string{}
